@@ -1221,6 +1221,69 @@ class _MSWorld:
             setattr(mod, k, v)
 
 
+def _opmatrix(apply, n_in):
+    cols = []
+    for k in range(n_in):
+        e = np.zeros(n_in, dtype=complex)
+        e[k] = 1
+        cols.append(np.asarray(apply(e), dtype=complex).ravel())
+    return np.array(cols).T
+
+
+class _MSRealWorld:
+    """Round 6: nothing is replaced. The real constructor and the real forward/backward run on hcipy's own
+    FastFourierTransform / MatrixFourierTransform / FourierFilter / FraunhoferPropagator; afterwards the matrices
+    of exactly those operators (level 0: the zero-padded FFT pair FourierFilter builds; level i >= 1: the
+    coronagraph's own FraunhoferPropagator objects; resampling j -> i: MatrixFourierTransform.backward o
+    FastFourierTransform.forward as the constructor composes them) are read off by applying them to unit
+    vectors, and handed to the model as exact rationals. The model then computes the stored masks and
+    forward/backward of the REAL coronagraph on these tiny grids."""
+
+    def __init__(self, n):
+        self.n = n
+        self.grids = []
+        self.F, self.B, self.R = {}, {}, {}
+        self.wavelengths = []
+
+    def patch(self):
+        return []
+
+    @staticmethod
+    def unpatch(saved):
+        pass
+
+    def ops(self, i):
+        return self.F[i], self.B[i]
+
+    def observe(self, pg, grids, props):
+        hp = _hp()
+        self.grids = list(grids)
+        fft0 = hp.FastFourierTransform(pg, 2)
+        if fft0.output_grid.size != grids[0].size:
+            raise MachineryError('real operators: level-0 FFT grid has %d points, the focal mask %d' % (fft0.output_grid.size, grids[0].size))
+        self.F[0] = _opmatrix(lambda e: fft0.forward(hp.Field(e, pg)), pg.size)
+        self.B[0] = _opmatrix(lambda v: fft0.backward(hp.Field(v, fft0.output_grid)), grids[0].size)
+        for i in range(1, len(grids)):
+            prop = props[i]
+            self.F[i] = _opmatrix(lambda e: prop.forward(hp.Wavefront(hp.Field(e, pg), 1)).electric_field, pg.size)
+            self.B[i] = _opmatrix(lambda v: prop.backward(hp.Wavefront(hp.Field(v, grids[i]), 1)).electric_field, grids[i].size)
+        for i in range(len(grids)):
+            for j in range(i):
+                fft = hp.FastFourierTransform(grids[j])
+                mft = hp.MatrixFourierTransform(grids[i], fft.output_grid)
+                self.R[(j, i)] = _opmatrix(lambda v: mft.backward(fft.forward(hp.Field(v, grids[j]))), grids[j].size)
+
+
+MSREAL_CONFIGS = [(2, 2, 2, 4, 'vortex'), (3, 2, 2, 4, 'fqpm'), (2, 2, 2, 8, 'vvc'), (2, 2, 2, 4, 'random'), (3, 2, 2, 8, 'vortex'), (4, 2, 2, 4, 'random'),
+                  (2, 2, 3, 6, 'fqpm'), (2, 4, 2, 4, 'vortex'), (3, 2, 2, 4, 'vvc')]
+
+
+def gen_msreal_case(rng, k):
+    N, W, s, q, kind = MSREAL_CONFIGS[k % len(MSREAL_CONFIGS)]
+    return {'part': 'F', 'real': True, 'N': N, 'w': W, 's': float(s), 'q': float(q), 'kind': kind, 'charge': int(rng.choice([2, 4])),
+            'stop': bool(rng.random() < 0.5), 'seed': int(rng.integers(0, 2 ** 31)), 'wavelengths': [1.0, float(rng.choice([0.5, 2.0, 1.6e-6]))]}
+
+
 MSALG_CONFIGS = [(2, 2, 2, 4), (2, 2, 2, 8), (2, 2, 3, 6), (2, 2, 3, 18), (3, 2, 2, 8), (3, 2, 2, 16), (3, 2, 3, 6), (2, 4, 2, 4),
                  (2, 4, 2, 8), (4, 2, 2, 4), (4, 2, 2, 8), (2, 2, 2, 2), (3, 2, 2, 4)]
 
@@ -1239,7 +1302,8 @@ def run_msalg_case(case):
     N, W, s, q = case['N'], case['w'], case['s'], case['q']
     pg = hp.make_pupil_grid(N)
     n = pg.size
-    world = _MSWorld(case['seed'], n)
+    real = bool(case.get('real'))
+    world = _MSRealWorld(n) if real else _MSWorld(case['seed'], n)
     rng = np.random.default_rng(case['seed'] + 1)
     vvc = case['kind'] == 'vvc'
     comps = [(a, c) for a in range(2) for c in range(2)] if vvc else [None]
@@ -1286,9 +1350,12 @@ def run_msalg_case(case):
             if not np.array_equal(np.asarray(wf.electric_field), E):
                 bad.append(('multiscale input-modified', 'forward changed its input'))
         if vvc:
-            masks_all = [np.asarray(m).copy() for m in c.get_instance_data(pg, None, case['wavelengths'][0]).jones_matrices]
+            inst = c.get_instance_data(pg, None, case['wavelengths'][0])
+            masks_all = [np.asarray(m).copy() for m in inst.jones_matrices]
+            mgrids, mprops = [m.grid for m in inst.jones_matrices], list(inst.props)
         else:
             masks_all = [np.asarray(m).copy() for m in c.focal_masks]
+            mgrids, mprops = [m.grid for m in c.focal_masks], list(c.props)
         # backward through the same object
         Y = rng.integers(-8, 9, n) / 4.0 + 1j * rng.integers(-8, 9, n) / 4.0
         outsb = []
@@ -1304,13 +1371,23 @@ def run_msalg_case(case):
         return None, [('multiscale stand-in raises', '%s on stand-ins raised %s: %s' % (case['kind'], type(e).__name__, str(e)[:100]))]
     finally:
         world.unpatch(saved)
+    if real:
+        try:
+            with warnings.catch_warnings():
+                warnings.simplefilter('ignore')
+                world.observe(pg, mgrids, mprops)
+        except MachineryError:
+            raise
+        except Exception as e:  # noqa
+            return None, bad + [('multiscale real-operators unreadable', 'reading the matrices of the real Fourier objects raised %s: %s' % (type(e).__name__, str(e)[:100]))]
     L = len(masks_all)
     grids = world.grids[:L]
     if any(w != 1.0 for w in world.wavelengths):
         bad.append(('multiscale chromatic-propagator-call', 'a propagator was called at wavelength %r (must be 1 after rescaling)' % sorted(set(world.wavelengths))[:3]))
-    if outs[0].shape != outs[1].shape or np.abs(outs[0] - outs[1]).max() > 0:
+    ctol = TOL * max(1.0, float(np.abs(outs[0]).max())) if real else 0
+    if outs[0].shape != outs[1].shape or np.abs(outs[0] - outs[1]).max() > ctol:
         bad.append(('multiscale chromatic', 'the output field depends on the wavelength'))
-    if outsb[0].shape != outsb[1].shape or np.abs(outsb[0] - outsb[1]).max() > 0:
+    if outsb[0].shape != outsb[1].shape or np.abs(outsb[0] - outsb[1]).max() > (TOL * max(1.0, float(np.abs(outsb[0]).max())) if real else 0):
         bad.append(('multiscale chromatic', 'the output field of backward depends on the wavelength'))
     want_shape = (2, 2, n) if vvc else (n,)
     if outs[0].shape != want_shape or outsb[0].shape != want_shape:
@@ -1465,17 +1542,17 @@ def gen_msteleb(rng):
 
 
 def part_f(ctx):
-    cases = [gen_msalg_case(ctx.rng, k) for k in range(ctx.scale(16, 60))]
+    cases = [gen_msalg_case(ctx.rng, k) for k in range(ctx.scale(16, 60))] + [gen_msreal_case(ctx.rng, k) for k in range(ctx.scale(4, 18))]
     lines, plan = [], []
     for case in cases:
         obs, bad = run_msalg_case(case)
         for key, what in bad:
             ctx.violation(key, what, case)
-        ctx.count('F:kind:' + case['kind'])
+        ctx.count(('F:real-operators:kind:' if case.get('real') else 'F:kind:') + case['kind'])
         ctx.count('F:stop' if case['stop'] else 'F:no-stop')
         if obs is not None:
             ctx.count('F:levels:%d' % obs['L'])
-            ctx.case({k: case[k] for k in ('N', 'w', 's', 'q', 'kind', 'stop')}, ('F', case['N'], case['w'], case['s'], case['q'], case['kind'], case['stop']) if obs['L'] > 1 else None)
+            ctx.case({k: case.get(k) for k in ('N', 'w', 's', 'q', 'kind', 'stop', 'real')}, ('F', case['N'], case['w'], case['s'], case['q'], case['kind'], case['stop'], bool(case.get('real'))) if obs['L'] > 1 else None)
             for part in obs['parts']:
                 plan.append((case, part, len(lines)))
                 lines.append(part['line'])
@@ -1489,6 +1566,7 @@ def part_f(ctx):
         toks = out[k].split()
         short = {k2: case[k2] for k2 in ('N', 'w', 's', 'q', 'kind', 'stop', 'seed')}
         short['jones_component'] = obs['comp']
+        short['real_operators'] = bool(case.get('real'))
         if toks[0] != 'ok' or len(toks) != 3 + 2 * obs['L']:
             raise MachineryError('model refused msalg: %s' % out[k][:80])
 
@@ -2318,7 +2396,7 @@ def run_set_case(case):
     except MachineryError:
         raise
     except Exception as e:  # noqa
-        bad.append(('setter raises', '%s coronagraph, %s: raised %s: %s' % (kind, hist, type(e).__name__, str(e)[:100])))
+        bad.append(('%s setter raises' % kind, '%s coronagraph, %s: raised %s: %s' % (kind, hist, type(e).__name__, str(e)[:100])))
         obs = None
     return obs, bad
 
